@@ -8,15 +8,88 @@ def monitor(case, out):
     return p2b.monitor_c16(case, out)
 
 
+def daemon_requests(rng):
+    """request datagrams for the real serve loop: ordinary polls of the three versions and requests of
+    the known C17 class (short unique-identifier fields, which the answer re-encodes with minimum sizes
+    16/28): with the daemon's request-sized buffer none of them may be answered with more bytes than it has"""
+    reqs = []
+
+    def hdr(first, n):
+        h = bytearray(48)
+        h[0] = first
+        h[40:48] = (0xC160000000000000 | n).to_bytes(8, "big")
+        return h
+
+    n = 0
+    for first in (0x1b, 0x23, 0x23, 0x23):
+        n += 1
+        reqs.append(bytes(hdr(first, n)))
+    for k_uid in (1, 2, 5, 10):          # k empty unique-identifier fields + one 32-byte unknown field
+        n += 1
+        b = hdr(0x23, n)
+        for _ in range(k_uid):
+            b += bytes([0x01, 0x04, 0x00, 0x04])
+        b += bytes([0xBE, 0xEF, 0x00, 0x20]) + bytes(28)
+        reqs.append(bytes(b))
+    for ulen in (8, 12, 16, 20, 36):     # one unique-identifier field of ulen bytes as last field, then optionally a 20-byte MAC
+        for mac in (0, 20):
+            n += 1
+            b = hdr(0x23, n)
+            b += bytes([0x01, 0x04]) + ulen.to_bytes(2, "big") + bytes(rng.randrange(256) for _ in range(ulen - 4))
+            b += bytes(rng.randrange(256) for _ in range(mac))
+            reqs.append(bytes(b))
+    for _ in range(6):                   # random tails
+        n += 1
+        b = hdr(0x23, n) + bytes(rng.randrange(256) for _ in range(4 * rng.randint(1, 12)))
+        reqs.append(bytes(b))
+    return reqs
+
+
+def daemon_loopback(c):
+    """the daemon side of C16 on the real code: ServerTask::serve on a loopback UDP socket (harness/ntpd/c16.rs)"""
+    from tools import vplib
+    exe, log, mode = vplib.build_harness("ntpd", "C16")
+    if exe is None:
+        c.not_shown_because("correspondence C16 daemon loopback: the ntpd harness no longer builds: %s" % log[-1200:])
+        return
+    reqs = daemon_requests(c.rng)
+    lines = ["%d %s" % (i, r.hex()) for i, r in enumerate(reqs)]
+    rc, out, res = vplib.run_harness(exe, "C16", lines, "ntpd", timeout=900)
+    answered = longer = 0
+    got = {}
+    for l in res:
+        t = l.split()
+        if len(t) >= 4 and t[1] != "PANIC":
+            got[int(t[0])] = (int(t[1]), int(t[2]), int(t[3]))
+    if rc != 0 or not got:
+        c.notes.append("daemon loopback run produced no result (rc=%s): %s" % (rc, out[-300:]))
+    alive = any(v[2] > 0 for v in got.values())
+    for i, (rl, reply, sentinel) in sorted(got.items()):
+        c.count_case("daemon " + lines[i], nontrivial=reply > 0)
+        if reply > 0:
+            answered += 1
+        if reply > rl:
+            longer += 1
+            c.fail("the daemon answered a %d-byte request with %d bytes (real ServerTask on a loopback UDP socket)" % (rl, reply),
+                   {"request_hex": reqs[i].hex(), "request_len": rl, "reply_len": reply, "harness_input": lines[i], "crate": "ntpd"})
+        if sentinel > 48:
+            c.fail("the daemon answered a plain 48-byte poll with %d bytes" % sentinel, {"harness_input": lines[i], "crate": "ntpd"})
+    c.cov["daemon_loopback"] = {"requests": len(reqs), "results": len(got), "answered": answered, "server_alive": alive,
+                                "replies_longer_than_request": longer}
+    if not alive:
+        c.notes.append("the loopback server did not answer the sentinel polls (socket unavailable or machine overloaded); daemon side covered by the source-text tie only in this run")
+
+
 def main():
     return p2b.run_property(
-        "C16", monitor,
+        "C16", monitor, pre_finish=daemon_loopback, crate_rule=
         "grammar-generated request datagrams (NTPv3/v4/v5, 0-10 extension fields of every kind and size class, MACs, NTS layouts "
         "with cookie/placeholders/unique identifiers in untrusted, authenticated and encrypted position, nonce lengths 0-32, wrong keys, "
         "rotated server keys, truncations and byte damage), each through NtpPacket::deserialize, Server::handle with a request-sized, a "
         "1024-byte and sometimes a third small buffer, or through one of the seven response builders + serialize; compared with the model: "
         "statistics, every clear byte of the answer (server cookie masked), authenticator sizes, decrypted fresh-cookie lengths, request "
-        "length formula and well-formedness; non-trivial = the decoder accepted the datagram (Ok or DecryptError); distinct = distinct input lines")
+        "length formula and well-formedness; non-trivial = the decoder accepted the datagram (Ok or DecryptError); distinct = distinct input lines; "
+        "plus the daemon side: the real ServerTask::serve loop on a loopback UDP socket with ordinary polls and requests of the C17 class, reply length <= request length")
 
 
 MANIFEST = {
